@@ -441,6 +441,20 @@ fn if_choices(t: &Topo, a: usize) -> Vec<u16> {
     v
 }
 
+/// at a segment change: is the link the packet came in on, or the one the next segment's first hop
+/// field leaves through, a peering link?
+fn xover_over_peering_link(t: &Topo, a: usize, inif: u16, p: &RStd) -> bool {
+    let b = seg_bounds(p);
+    let (ci, ch) = (p.curr_inf as usize, p.curr_hf as usize);
+    if ci + 1 >= p.infos.len() || ch + 1 >= p.hops.len() || b.get(ci).map(|x| x.1) != Some(ch + 1) {
+        return false;
+    }
+    let nh = &p.hops[ch + 1];
+    let eg = if p.infos[ci + 1].cons_dir() { nh.eg } else { nh.ing };
+    let ch_in = { let h = &p.hops[ch]; if p.infos[ci].cons_dir() { h.ing } else { h.eg } };
+    [inif, ch_in, eg].iter().any(|i| *i != 0 && t.role_at(a, *i) == Some(refmodel::topo::IfRole::Peer))
+}
+
 fn step_tag(t: &Topo, a: usize, p: &RStd) -> &'static str {
     let b = seg_bounds(p);
     let (ci, ch) = (p.curr_inf as usize, p.curr_hf as usize);
@@ -599,7 +613,12 @@ fn check(c: &Case, obs: &mut Obs) -> CheckResult {
             Ok(RPath::Std(p)) => p,
             other => return Err(Fail::new("harness:reference-decoder-disagrees", format!("{other:?}"))),
         };
-        let tag = step_tag(&t, a, &pre);
+        let mut tag = step_tag(&t, a, &pre);
+        if tag.starts_with("xover") && xover_over_peering_link(&t, a, inif, &pre) {
+            // the simulator crosses peering links by an ordinary segment change (it has no
+            // peering-path support); the reference never admits a peering link at a segment change
+            tag = "xover-peering-link";
+        }
         let mut rp = pre.clone();
         let (mut rv, mut rall) = router::process_all(&t, a, inif, &mut rp, dst_ia, now, Lenient::default());
         let ia = t.ases[a].ia;
@@ -687,6 +706,9 @@ fn check(c: &Case, obs: &mut Obs) -> CheckResult {
             // the simulator drops them, the reference processes them - any refusal is accepted
             (_, SutV::Drop) if single_hop_seg => obs.label("unspecified:single-hop-segment"),
             (Verdict::Reject(_), SutV::Err(_)) if single_hop_seg => obs.label("unspecified:single-hop-segment"),
+            // unspecified: segment change on a packet injected from inside the AS - refused by both,
+            // the class of the refusal is left open
+            (Verdict::Reject(_), SutV::Err(_)) if inif == 0 && tag.starts_with("xover") => obs.label("unspecified:segment-change-from-inside"),
             _ => return Err(Fail::new(sig(), where_)),
         }
         final_sut = sv;
